@@ -2,9 +2,11 @@
   * mutation self-test: every seed edit (mutants/seed_mutants.json) and every kept sub-agent change (seeded/<id>/patch.diff)
     registered for this property is applied to a scratch copy of /repo under /var/tmp (removed afterwards) and must be
     reported by a named obligation;  a miss is a weakness of the machinery (reported, never a property violation);
-  * cross-solver agreement: every obligation of the quick tier is re-run with cvc5 as primary back end where the
-    obligation can be exported (reported per clause).
-Nothing here is counted in obligations/discharged."""
+  * cross-solver agreement (done inside the workers, switched on by the runner for this tier through PYVC_CROSS): for every
+    contract the first 60 queries z3 discharges are exported as SMT-LIB and re-checked by cvc5 (15 s each); agreement is
+    recorded in the back end of the clause ('z3+cvc5-agree'), no answer as 'z3 (cvc5: no answer)', and a cvc5 `sat` where z3
+    said `unsat` turns the clause UNDECIDED (exit 2), never into a violation.
+The mutation self-test is not counted in obligations/discharged."""
 import glob
 import json
 import os
